@@ -47,8 +47,7 @@ class PluginRef(MetadataSchema):
             return self.group >= other.group
         if self.name != other.name:
             return self.name >= other.name
-        if self.version != other.version:
-            return self.version >= other.version
+        return self.version >= other.version
 
     def __hash__(self):
         # needed because otherwise would differ in subclass,
